@@ -259,6 +259,10 @@ func c14Accesses(r *Run, rep *core.Report, reach map[*ssa.Function]bool) {
 				switch y := ref.(type) {
 				case *ssa.UnOp, *ssa.FieldAddr, *ssa.IndexAddr, *ssa.DebugRef:
 				case *ssa.Store:
+					if _, isH := r.M.HandleCtors[f]; isH && y.Addr != v {
+						// a lock handle under construction: its uses are judged below (only the handle's lock operations)
+						continue
+					}
 					if y.Addr != v {
 						rep.Undecided("C14.A1", fmt.Sprintf("%s address of %s stored", fn(f), a.Key()), r.P.InstrPos(ref), "address of a shared word escapes into memory; accesses through it are not tracked")
 					}
@@ -276,6 +280,27 @@ func c14Accesses(r *Run, rep *core.Report, reach map[*ssa.Function]bool) {
 				}
 			}
 		})
+	}
+	// lock handles (a struct value holding the pointer to a bucket's lock) are only ever locked and unlocked
+	for hf := range r.M.HandleCtors {
+		for _, site := range core.CallSitesOf(r.P.Funcs, hf) {
+			hv, isV := site.(ssa.Value)
+			if !isV || hv.Referrers() == nil {
+				rep.Undecided("C14.A1", fn(site.Parent())+" lock handle", r.P.InstrPos(site), "lock handle built in a go/defer statement")
+				continue
+			}
+			for _, ref := range *hv.Referrers() {
+				switch y := ref.(type) {
+				case *ssa.DebugRef:
+				case ssa.CallInstruction:
+					w, isW := r.M.Wrappers[core.Callee(y)]
+					okUse := isW && w.Handle && w.Param < len(y.Common().Args) && y.Common().Args[w.Param] == hv
+					rep.Check(okUse, "C14.A1", fmt.Sprintf("%s lock handle passed to %s", fn(site.Parent()), core.CalleeID(y)), r.P.InstrPos(ref), "the handle is only locked / unlocked", "a lock handle (pointer to a bucket's lock word) is passed to something other than its lock operations: accesses through it are not tracked")
+				default:
+					rep.Undecided("C14.A1", fmt.Sprintf("%s lock handle used by %T", fn(site.Parent()), ref), r.P.InstrPos(ref), "a lock handle (pointer to a bucket's lock word) is stored or copied: accesses through it are not tracked")
+				}
+			}
+		}
 	}
 	rep.MinCount("C14.A1", "atomic accesses to shared words", nAtomic, 40)
 	rep.MinCount("C14.A2", "plain reads under a bucket lock", nPlainLocked, 10)
@@ -396,6 +421,10 @@ func c14Settings(r *Run, rep *core.Report, reach map[*ssa.Function]bool) {
 						tn := "?"
 						if mi, ok := arg.(*ssa.MakeInterface); ok {
 							tn = typeName(mi.X.Type())
+						} else if ct, ok := arg.(*ssa.ChangeType); ok && isTypeParam(ct.X.Type()) {
+							// generic settings struct: the stored value has the struct's type parameter as its type - one
+							// dynamic type per instantiation, and each cache type embeds its own
+							tn = typeName(ct.X.Type())
 						} else {
 							rep.Fail("C14.A5", cons+" Store of interface value", r.P.InstrPos(ref), "value stored into atomic.Value has no single static type (a second dynamic type panics)")
 						}
@@ -446,13 +475,18 @@ func c14Settings(r *Run, rep *core.Report, reach map[*ssa.Function]bool) {
 	}
 }
 
+func isTypeParam(t types.Type) bool {
+	_, ok := t.(*types.TypeParam)
+	return ok
+}
+
 // ---- A6: janitor shared variables ----
 
 func c14Janitor(r *Run, rep *core.Report) {
 	n := 0
-	for i := 0; i < 2; i++ {
-		ctor := r.M.CacheCtor[i]
-		if ctor == nil {
+	// every go statement of the package (the constructors', or those of the helpers they start the janitor through)
+	for _, ctor := range r.P.Funcs {
+		if ctor.Pkg != r.P.Cache || ctor.Blocks == nil {
 			continue
 		}
 		core.Instrs(ctor, func(in ssa.Instruction) {
@@ -464,6 +498,17 @@ func c14Janitor(r *Run, rep *core.Report) {
 			mc, ok := g.Common().Value.(*ssa.MakeClosure)
 			if !ok {
 				// goroutine started as a function call: arguments are passed by value, nothing is shared by reference
+				// (unless the address of a local variable is handed over)
+				byRef := false
+				for _, a := range g.Common().Args {
+					if cell, isCell := core.StripConv(a).(*ssa.Alloc); isCell && !cell.Heap {
+						byRef = true
+					}
+				}
+				if byRef {
+					rep.Undecided("C14.A6", fn(ctor)+" goroutine arguments", r.P.InstrPos(in), "the address of a local variable is handed to the goroutine; accesses through it are not tracked")
+					return
+				}
 				rep.Pass("C14.A6", fn(ctor)+" goroutine arguments", r.P.InstrPos(in), "the janitor is started with arguments passed by value; no variable is shared with the constructor")
 				return
 			}
@@ -507,7 +552,7 @@ func c14Janitor(r *Run, rep *core.Report) {
 			}
 		})
 	}
-	rep.MinCount("C14.A6", "janitor go statements", n, 2)
+	rep.MinCount("C14.A6", "janitor go statements", n, 1)
 }
 
 // ---- A7: 64-bit atomic operand alignment under the 386 layout ----
